@@ -71,26 +71,31 @@ Definition promPiece (wtm : bool) (prom : N) : piece :=
   | None => pgPromDefault
   end.
 
-(** the two sequential [if ((from == E1) && (pos.getPiece(from) == WKING)) {...}] blocks *)
-Definition castleConv (pos : position) (from to : square) : square :=
+(** the two sequential [if ((from == E1) && (pos.getPiece(from) == WKING)) {...}] blocks;
+    [pcFrom] is the piece standing on the from-square *)
+Definition castleConv (pcFrom : piece) (from to : square) : square :=
   fold_left (fun t c =>
                match c with
                | (f, pc, (a, a'), (b, b')) =>
-                   if ((from =? f) && (getPiece pos from =? pc))%N
+                   if ((from =? f) && (pcFrom =? pc))%N
                    then (if (t =? a)%N then a' else if (t =? b)%N then b' else t)
                    else t
                end) pgCastleConv to.
 
-Definition getMove (pos : position) (mv : N) : move :=
-  let wtm := whiteMove pos in
+Definition moveFrom (mv : N) : square :=
+  mkSq (field mv pg_fromFile_shift pg_fromFile_mask) (field mv pg_fromRow_shift pg_fromRow_mask).
+
+(** getMove as a function of the two things it reads from the position *)
+Definition getMoveP (wtm : bool) (pcFrom : piece) (mv : N) : move :=
   let toFile := field mv pg_toFile_shift pg_toFile_mask in
   let toRow := field mv pg_toRow_shift pg_toRow_mask in
-  let fromFile := field mv pg_fromFile_shift pg_fromFile_mask in
-  let fromRow := field mv pg_fromRow_shift pg_fromRow_mask in
   let prom := field mv pg_prom_shift pg_prom_mask in
-  let from := mkSq fromFile fromRow in
+  let from := moveFrom mv in
   let to := mkSq toFile toRow in
-  mkMove from (castleConv pos from to) (promPiece wtm prom).
+  mkMove from (castleConv pcFrom from to) (promPiece wtm prom).
+
+Definition getMove (pos : position) (mv : N) : move :=
+  getMoveP (whiteMove pos) (getPiece pos (moveFrom mv)) mv.
 
 (** * PolyglotBook::getHashKey *)
 Definition hashRandom (i : N) : N := nth (N.to_nat i) hashRandoms 0%N.
